@@ -28,7 +28,7 @@ RULE = (
     "process too); (a') Grid(face_connections=...) accept/refuse of consistent and edited (inconsistent) tables under several listing orders; (b) equivalent() on multi-axis signatures and their renamings; (c) list(Grid(ds).axes) and repr for "
     "COMODO / SGRID datasets with 2-4 axes; (d) get_metric / integrate for registries offering several partitions of the "
     "requested axes with numerically different products; (e) a regression slice of the generators of C01, C09, C10 "
-    "(multi-axis calls). Axis names are drawn from a pool so that set iteration orders differ between seeds; each "
+    "(multi-axis calls); (f) metrics and fields that must be moved along 2-3 axes at once (centre <-> corner), with inexact floating-point values so that the order of the axes shows in the last bit. Axis names are drawn from a pool so that set iteration orders differ between seeds; each "
     "subprocess records the iteration order of sentinel sets and the evidence counts the distinct orders seen. One verdict "
     "per (scenario, hash seed); class = (scenario class, its discrete features); non-trivial iff the scenario involves >= 2 axes."
 )
@@ -63,12 +63,19 @@ def attempt(f):
             warnings.simplefilter("ignore")
             return {"outcome": "return", "value": digest(f())}
     except Exception as e:
-        return {"outcome": "raise:" + type(e).__name__}
+        return {"outcome": "raise"}  # the kind of exception is not part of "accept/reject outcome"
 
 
 # ---------------------------------------------------------------------------------------------------
 def gen_case(rng, i, tier):
-    kind = ["pad", "pad", "ctor", "equiv", "parse", "metric", "metric", "slice01", "slice09", "slice10", "pad", "ctor", "twodims"][i % 13]
+    kind = ["pad", "pad", "ctor", "equiv", "parse", "metric", "metric", "slice01", "slice09", "slice10", "pad", "ctor", "twodims", "move2"][i % 14]
+    if kind == "move2":
+        # something that has to be moved along two (or three) axes at once - a metric registered on cell centres asked for at
+        # cell corners - with values that are not exactly representable sums, so that the order in which the axes are
+        # visited shows in the last bit
+        names = rng.sample(NAMES, rng.choice([2, 2, 3]))
+        return {"kind": "move2", "names": names, "n": [rng.randint(3, 5) for _ in names], "seed": rng.getrandbits(31),
+                "frm": rng.choice(["center", "left"]), "listed": rng.sample(names, len(names))}
     if kind == "twodims":
         # an ill-posed input - an array carrying two dimensions of the same axis - through pad, a grid ufunc and diff:
         # whatever the outcome (refusal), it is the same under every hash seed
@@ -269,6 +276,32 @@ def run_scenario(ctx, desc):
             return {"axes": list(g.axes), "repr": repr(g), "coords": {a: list(ax.coords.items()) for a, ax in g.axes.items()}}
 
         return attempt(f), ("parse", desc["conv"], len(desc["spec"]))
+    if kind == "move2":
+        import xarray as xr
+        from xgcm import Grid
+
+        names, frm = desc["names"], desc["frm"]
+        to = "left" if frm == "center" else "center"
+        sfx = {"center": "_c", "left": "_l"}
+        r = np.random.default_rng(desc["seed"])
+        ds = xr.Dataset(coords={a + s_: (a + s_, np.arange(n) + (0.5 if s_ == "_c" else 0.0)) for a, n in zip(names, desc["n"]) for s_ in ("_c", "_l")})
+        fdims = [a + sfx[frm] for a in names]
+        for k, a in enumerate(names):
+            ds["d" + a] = (fdims, 0.5 + r.random([ds.sizes[d] for d in fdims]))
+        ds["vol"] = (fdims, 0.5 + r.random([ds.sizes[d] for d in fdims]))
+        mets = {(a,): ["d" + a] for a in names}
+        mets[tuple(names)] = ["vol"]
+        g = Grid(ds, coords={a: {"center": a + "_c", "left": a + "_l"} for a in names}, metrics=mets, periodic=False, boundary="extend", autoparse_metadata=False)
+        tdims = [a + sfx[to] for a in names]
+        arr = xr.DataArray(r.random([ds.sizes[d] for d in tdims]), dims=tdims)
+        src = xr.DataArray(r.random([ds.sizes[d] for d in fdims]), dims=fdims)
+
+        def f():
+            return {"metric_all": g.get_metric(arr, desc["listed"]), "metric_one": g.get_metric(arr, [names[0]]),
+                    "interp_like": g.interp_like(src, arr), "average": g.average(arr, desc["listed"]),
+                    "interp": g.interp(src, desc["listed"], to=to)}
+
+        return attempt(f), ("move2", len(names), frm)
     if kind == "metric":
         import xarray as xr
 
